@@ -91,6 +91,7 @@ def run(c):
                                   known_classifier=rt.known_by(c, [('F9', rt.f9_territory)]))
     # static correspondences: op trees, implicit structures, TSDL IR, and the two readers on real packets
     ncmp, nbad, first = 0, 0, None
+    bad_texts = []
     dist = {}
     for cs in cases:
         if cs.md is None:
@@ -103,7 +104,15 @@ def run(c):
             dist[x[2]] = dist.get(x[2], 0) + 1
         if bad and first is None:
             first = (cs, bad[0])
+        if bad:
+            bad_texts.append(cs.text)
         nbad += len(bad)
+    # operation trees and implicit structures of many more layouts (nothing compiled)
+    swept = ly.op_tree_sweep(c, 300 if c.tier == 'thorough' else 60, seed_base=1300)
+    if swept and first is None:
+        first = swept
+        nbad += 1
+    bad_texts = [t for _s, t in sorted(getattr(c, 'bad_layout_scored', []), key=lambda x: -x[0])[:8]] + bad_texts
     # the two readers on real packets: Python reader on the parsed real metadata vs Lean reader on tsdlStruct
     import random
     rnd = random.Random(c.seed + 101)
@@ -132,13 +141,15 @@ def run(c):
         nbad += len(bad)
     c.coverage['correspondence']['H-layout'] = {'comparisons': ncmp, 'disagreements': nbad, 'streams': dist}
     c.coverage['disagreements_checked'] = c.coverage.get('disagreements_checked', 0) + nbad
-    if nbad and not c.violations:
+    if nbad and not c.violations and not rt.search_impl(
+            c, oracle, nhist=30, texts=bad_texts, profiles=('layout-pad', 'layout', 'rt', 'rt-pad'),
+            known_classifier=rt.known_by(c, [('F9', rt.f9_territory)]), hist_kwargs={'toggles': False}):
         cs, (qq, exp, got, lab) = first
         c.violation({'property': 'C01', 'kind': f'correspondence broken ({lab}): the Lean layout model differs from what the '
                      'generator produced, and no decoded value that differs from a traced argument was found',
                      'obligation': f'H-layout {lab} stream', 'config_yaml': cs.text, 'query': qq,
                      'implementation': exp, 'model': got}, found_input=False)
-    rt.decide(c, ob, dis)
+    rt.decide(c, ob, dis, oracle=oracle, known_classifier=rt.known_by(c, [('F9', rt.f9_territory)]))
     if c.tier == 'thorough' and ob['ok']:
         ok, log = c.leanchecker(['BVM.Props.C01'])
         if not ok:
